@@ -6,7 +6,7 @@ import random
 from .. import tlc, tracecheck, extract
 from ..core import REPO, uncps
 from ..lexrec import (LexRecorder, sigma_strings, SIGMA, SIGMA_QUICK,
-                      random_unicode, opener_mixes)
+                      random_unicode, opener_mixes, notable_inputs, long_token_inputs)
 
 MC = """---- MODULE MC_LexScan ----
 EXTENDS LexScan
@@ -94,6 +94,7 @@ def run(ctx):
     if not quick and len(mixes) > 60000:
         mixes = rng.sample(mixes, 60000)
     texts += mixes
+    texts += notable_inputs() + long_token_inputs()
     fixtures = repo_texts()
     texts += [t[:400] for t in fixtures] + [t[i:i + 200] for t in fixtures for i in range(0, min(len(t), 2000), 200)]
     rec = LexRecorder()
